@@ -348,7 +348,7 @@ class Hist:
         out = run_lines(self.model, [' '.join(req)], shards=1)[0]
         self.model_steps += 1
         if not out.startswith('ok '):
-            self.chk.violation('model_error', 'array model failed on a sync step: %s' % out[:200], {'request': ' '.join(req)[:4000], 'history': self.log}, no_input=True)
+            self.chk.violation('model_error', 'array model failed on a sync step: %s' % out[:200], dict(self.rinfo, request=' '.join(req)[:4000], history=self.log), no_input=True)
             return
         toks = out.split()
         i = toks.index('C')
@@ -374,14 +374,14 @@ class Hist:
             # which side satisfies the property?  the invariants on the real state are judged separately (invariants());
             # here the disagreement means the model no longer describes the code
             self.chk.violation('drift_sync', 'MODEL-DRIFT: the sync model predicts a different content state than the real sync (%s)' % ' '.join(args),
-                               {'model': ' '.join(norm(mc)), 'real': ' '.join(norm(rc)), 'request': ' '.join(req)[:6000], 'history': self.log}, no_input=True)
+                               dict(self.rinfo, model=' '.join(norm(mc)), real=' '.join(norm(rc)), request=' '.join(req)[:6000], history=self.log), no_input=True)
             return
         mp, _ = br.parse_parity(toks, j)
         br.parity = mp
         perrs = br.check_parity_model()
         for e in perrs[:2]:
             self.chk.violation('drift_parity', 'MODEL-DRIFT: after %s the real parity is not what the sync model says it encodes: %s' % (' '.join(args), e),
-                               {'history': self.log, 'error': e}, no_input=True)
+                               dict(self.rinfo, history=self.log, error=e), no_input=True)
 
     def run(self, ops):
         for op in ops:
